@@ -45,13 +45,6 @@ pub mod error {
 ///      "type": "integer",
 ///      "format": "uint8"
 ///    },
-///    "list": {
-///      "type": "array",
-///      "items": {
-///        "type": "integer",
-///        "format": "uint8"
-///      }
-///    },
 ///    "pair": {
 ///      "oneOf": [
 ///        {
@@ -73,28 +66,6 @@ pub mod error {
 ///          "type": "null"
 ///        }
 ///      ]
-///    },
-///    "span": {
-///      "type": "array",
-///      "items": [
-///        {
-///          "type": "integer"
-///        },
-///        {
-///          "type": "string"
-///        }
-///      ],
-///      "maxItems": 2,
-///      "minItems": 2
-///    },
-///    "tags": {
-///      "type": [
-///        "array",
-///        "null"
-///      ],
-///      "items": {
-///        "type": "string"
-///      }
 ///    }
 ///  }
 ///}
@@ -103,17 +74,76 @@ pub mod error {
 #[derive(::serde::Deserialize, ::serde::Serialize, Clone, Debug)]
 pub struct Record {
     pub id: u8,
-    #[serde(default, skip_serializing_if = "::std::vec::Vec::is_empty")]
-    pub list: ::std::vec::Vec<u8>,
     #[serde(default, skip_serializing_if = "::std::option::Option::is_none")]
     pub pair: ::std::option::Option<(bool, i64)>,
-    #[serde(default, skip_serializing_if = "::std::option::Option::is_none")]
-    pub span: ::std::option::Option<(i64, ::std::string::String)>,
-    #[serde(default, skip_serializing_if = "::std::option::Option::is_none")]
-    pub tags: ::std::option::Option<::std::vec::Vec<::std::string::String>>,
 }
 impl ::std::convert::From<&Record> for Record {
     fn from(value: &Record) -> Self {
         value.clone()
+    }
+}
+impl Record {
+    pub fn builder() -> builder::Record {
+        Default::default()
+    }
+}
+/// Types for composing complex structures.
+pub mod builder {
+    #[derive(Clone, Debug)]
+    pub struct Record {
+        id: ::std::result::Result<u8, ::std::string::String>,
+        pair: ::std::result::Result<
+            ::std::option::Option<(bool, i64)>,
+            ::std::string::String,
+        >,
+    }
+    impl ::std::default::Default for Record {
+        fn default() -> Self {
+            Self {
+                id: Err("no value supplied for id".to_string()),
+                pair: Ok(Default::default()),
+            }
+        }
+    }
+    impl Record {
+        pub fn id<T>(mut self, value: T) -> Self
+        where
+            T: ::std::convert::TryInto<u8>,
+            T::Error: ::std::fmt::Display,
+        {
+            self.id = value
+                .try_into()
+                .map_err(|e| format!("error converting supplied value for id: {}", e));
+            self
+        }
+        pub fn pair<T>(mut self, value: T) -> Self
+        where
+            T: ::std::convert::TryInto<::std::option::Option<(bool, i64)>>,
+            T::Error: ::std::fmt::Display,
+        {
+            self.pair = value
+                .try_into()
+                .map_err(|e| format!("error converting supplied value for pair: {}", e));
+            self
+        }
+    }
+    impl ::std::convert::TryFrom<Record> for super::Record {
+        type Error = super::error::ConversionError;
+        fn try_from(
+            value: Record,
+        ) -> ::std::result::Result<Self, super::error::ConversionError> {
+            Ok(Self {
+                id: value.id?,
+                pair: value.pair?,
+            })
+        }
+    }
+    impl ::std::convert::From<super::Record> for Record {
+        fn from(value: super::Record) -> Self {
+            Self {
+                id: Ok(value.id),
+                pair: Ok(value.pair),
+            }
+        }
     }
 }
